@@ -15,7 +15,7 @@ for pid in sorted(PROPS):
         "evidence_file": "/verif/evidence/%s.json" % pid,
         "replay_cmd_template": "bin/check %s --replay {path}" % pid,
         "engine": p["engine"],
-        "level_claimed": {"category": p["level"], "text": p["level_text"], "design_ref": p.get("design_ref", "DESIGN.md section 6")},
+        "level_claimed": {"category": p["level"], "text": p["level_text"], "design_ref": p.get("design_ref", "DESIGN.md section 6 (design) and section 10 (as built)")},
         "level_note": p["level_note"],
         "technique": p["technique"],
     })
